@@ -160,6 +160,12 @@ where
     // attempt reached a successful CONNACK: an attempt that is never established (refused, or
     // the transport died first) must not change what the session is
     need_store_before_connect: bool,
+    /// Packet IDs of the outbound QoS 1/2 exchanges, and of the QoS 2 PUBLISH packets already
+    /// handed to the application, that existed when the CONNECT of the current connection
+    /// attempt was processed and have not been completed and re-used since. This is the part
+    /// of the session state that a CONNACK without Session Present discards.
+    ids_before_connect: HashSet<PacketIdType>,
+    handled_before_connect: HashSet<PacketIdType>,
     established: bool,
     // Store for retransmission packets
     store: GenericStore<PacketIdType>,
@@ -272,6 +278,8 @@ where
             need_store: false,
             new_session_at_connect: false,
             need_store_before_connect: false,
+            ids_before_connect: HashSet::default(),
+            handled_before_connect: HashSet::default(),
             established: false,
             store: GenericStore::new(),
             offline_publish: false,
@@ -1384,6 +1392,15 @@ where
         self.pingreq_keep_alive_ms = 0;
         self.pingreq_server_keep_alive_ms = None;
         self.pingreq_recv_timeout_ms = 0;
+        // What the session holds at this point is "the session before this CONNECT"
+        self.ids_before_connect = self
+            .pid_puback
+            .iter()
+            .chain(self.pid_pubrec.iter())
+            .chain(self.pid_pubcomp.iter())
+            .copied()
+            .collect();
+        self.handled_before_connect = self.qos2_publish_handled.clone();
     }
 
     fn clear_store_related(&mut self) {
@@ -1395,6 +1412,33 @@ where
         self.qos2_publish_handled.clear();
         // No exchange is left that could count against the peer's Receive Maximum
         self.publish_send_count = 0;
+        self.ids_before_connect.clear();
+        self.handled_before_connect.clear();
+    }
+
+    /// Session not present after a CONNECT without clean start: the session as it was before
+    /// that CONNECT is discarded. Whatever was handed over or notified since the CONNECT
+    /// belongs to the session that starts now and stays.
+    fn discard_session_before_connect(&mut self) {
+        let old = core::mem::take(&mut self.ids_before_connect);
+        self.store.for_each(|packet| !old.contains(&packet.packet_id()));
+        for packet_id in old {
+            self.pid_puback.remove(&packet_id);
+            self.pid_pubrec.remove(&packet_id);
+            self.pid_pubcomp.remove(&packet_id);
+            if self.pid_man.is_used_id(packet_id) {
+                self.pid_man.release_id(packet_id);
+            }
+        }
+        let old_handled = core::mem::take(&mut self.handled_before_connect);
+        self.qos2_publish_handled
+            .retain(|packet_id| !old_handled.contains(packet_id));
+        self.publish_send_count = if self.publish_send_max.is_some() {
+            let incomplete = self.pid_puback.len() + self.pid_pubrec.len() + self.pid_pubcomp.len();
+            incomplete.min(u16::MAX as usize) as u16
+        } else {
+            0
+        };
     }
 
     /// Send all stored packets for retransmission
@@ -1600,13 +1644,15 @@ where
 
         self.status = ConnectionStatus::Connected;
         self.established = true;
-        if session_present || self.new_session_at_connect {
-            // (after a clean start the store only holds what was handed over since the CONNECT)
-            events.extend(self.send_stored());
-        } else {
+        if !(session_present || self.new_session_at_connect) {
             // Session not present: nothing of an earlier session may be retransmitted
-            self.clear_store_related();
+            self.discard_session_before_connect();
         }
+        self.ids_before_connect.clear();
+        self.handled_before_connect.clear();
+        // (after a clean start, or without Session Present, the store only holds what was
+        // handed over since the CONNECT)
+        events.extend(self.send_stored());
         self.send_post_process(&mut events);
 
         events
@@ -1687,13 +1733,15 @@ where
         self.status = ConnectionStatus::Connected;
         self.established = true;
 
-        if session_present || self.new_session_at_connect {
-            // (after a clean start the store only holds what was handed over since the CONNECT)
-            events.extend(self.send_stored());
-        } else {
+        if !(session_present || self.new_session_at_connect) {
             // Session not present: nothing of an earlier session may be retransmitted
-            self.clear_store_related();
+            self.discard_session_before_connect();
         }
+        self.ids_before_connect.clear();
+        self.handled_before_connect.clear();
+        // (after a clean start, or without Session Present, the store only holds what was
+        // handed over since the CONNECT)
+        events.extend(self.send_stored());
         self.send_post_process(&mut events);
 
         events
@@ -1741,6 +1789,8 @@ where
             } else {
                 self.pid_puback.insert(packet_id);
             }
+            // (a new exchange: the ID no longer stands for one from before the CONNECT)
+            self.ids_before_connect.remove(&packet_id);
         } else if self.status != ConnectionStatus::Connected {
             events.push(GenericEvent::NotifyError(MqttError::PacketNotAllowedToSend));
             return events;
@@ -1876,6 +1926,8 @@ where
             } else {
                 self.pid_puback.insert(packet_id);
             }
+            // (a new exchange: the ID no longer stands for one from before the CONNECT)
+            self.ids_before_connect.remove(&packet_id);
         } else if self.status != ConnectionStatus::Connected {
             events.push(GenericEvent::NotifyError(MqttError::PacketNotAllowedToSend));
             return events;
@@ -3016,19 +3068,22 @@ where
                 if packet.return_code() == ConnectReturnCode::Accepted {
                     self.status = ConnectionStatus::Connected;
                     self.established = true;
-                    if packet.session_present() || self.new_session_at_connect {
-                        // (after a clean start the store only holds what was published since
-                        // the CONNECT: it belongs to the new session and goes out now)
-                        let resent = self.send_stored();
-                        let transmitted = resent
-                            .iter()
-                            .any(|e| matches!(e, GenericEvent::RequestSendPacket { .. }));
-                        events.extend(resent);
-                        if transmitted {
-                            self.send_post_process(&mut events);
-                        }
-                    } else {
-                        self.clear_store_related();
+                    if !(packet.session_present() || self.new_session_at_connect) {
+                        // Session not present: the session as it was before the CONNECT is gone
+                        self.discard_session_before_connect();
+                    }
+                    self.ids_before_connect.clear();
+                    self.handled_before_connect.clear();
+                    // (after a clean start, or without Session Present, the store only holds
+                    // what was published since the CONNECT: it belongs to the new session and
+                    // goes out now)
+                    let resent = self.send_stored();
+                    let transmitted = resent
+                        .iter()
+                        .any(|e| matches!(e, GenericEvent::RequestSendPacket { .. }));
+                    events.extend(resent);
+                    if transmitted {
+                        self.send_post_process(&mut events);
                     }
                 }
                 events.push(GenericEvent::NotifyPacketReceived(
@@ -3108,7 +3163,9 @@ where
                                     // (after a clean start the session began with the CONNECT:
                                     // what has been handed over since then belongs to it and
                                     // lives until the connection is closed)
-                                    if !self.new_session_at_connect {
+                                    // (... and without Session Present the session before
+                                    // the CONNECT is discarded below, nothing else)
+                                    if !self.new_session_at_connect && packet.session_present() {
                                         self.clear_store_related();
                                     }
                                 } else {
@@ -3121,19 +3178,22 @@ where
                         }
                     }
 
-                    if packet.session_present() || self.new_session_at_connect {
-                        // (after a clean start the store only holds what was published since
-                        // the CONNECT: it belongs to the new session and goes out now)
-                        let resent = self.send_stored();
-                        let transmitted = resent
-                            .iter()
-                            .any(|e| matches!(e, GenericEvent::RequestSendPacket { .. }));
-                        events.extend(resent);
-                        if transmitted {
-                            self.send_post_process(&mut events);
-                        }
-                    } else {
-                        self.clear_store_related();
+                    if !(packet.session_present() || self.new_session_at_connect) {
+                        // Session not present: the session as it was before the CONNECT is gone
+                        self.discard_session_before_connect();
+                    }
+                    self.ids_before_connect.clear();
+                    self.handled_before_connect.clear();
+                    // (after a clean start, or without Session Present, the store only holds
+                    // what was published since the CONNECT: it belongs to the new session and
+                    // goes out now)
+                    let resent = self.send_stored();
+                    let transmitted = resent
+                        .iter()
+                        .any(|e| matches!(e, GenericEvent::RequestSendPacket { .. }));
+                    events.extend(resent);
+                    if transmitted {
+                        self.send_post_process(&mut events);
                     }
                 }
                 events.push(GenericEvent::NotifyPacketReceived(
@@ -3186,6 +3246,9 @@ where
                             Qos::ExactlyOnce => {
                                 let packet_id = packet.packet_id().unwrap();
                                 let already_handled = !self.qos2_publish_handled.insert(packet_id);
+                                if !already_handled {
+                                    self.handled_before_connect.remove(&packet_id);
+                                }
 
                                 if self.status == ConnectionStatus::Connected
                                     && (self.auto_pub_response || already_handled)
@@ -3343,7 +3406,9 @@ where
 
                         if packet.qos() == Qos::ExactlyOnce {
                             if let Some(packet_id) = packet.packet_id() {
-                                self.qos2_publish_handled.insert(packet_id);
+                                if self.qos2_publish_handled.insert(packet_id) {
+                                    self.handled_before_connect.remove(&packet_id);
+                                }
                             }
                         }
 
